@@ -27,6 +27,7 @@ CONFIGS = {
     'io-sync':         ('repo', 'minicbor-io', '', 'minicbor_io', 'minicbor,minicbor_io'),
     'tests-lib':       ('repo', 'minicbor-tests', 'std', 'minicbor_tests', 'minicbor,minicbor_tests'),
     'schemas':         ('harness', 'mcv-schemas', '', 'mcv_schemas', 'minicbor,mcv_schemas'),
+    'schemas-rand':    ('harness', 'mcv-schemas-rand', '', 'mcv_schemas_rand', 'minicbor,mcv_schemas_rand'),
     'schemas-alloc':   ('harness', 'mcv-schemas-alloc', '', 'mcv_schemas_alloc', 'minicbor,mcv_schemas_alloc'),
     'fixtures':        ('harness', 'mcv-fixtures', '', 'mcv_fixtures', 'minicbor,mcv_fixtures'),
     'serde-harness':   ('harness', 'mcv-serde-harness', '', 'mcv_serde_harness', 'minicbor,minicbor_serde,mcv_serde_harness'),
